@@ -147,7 +147,14 @@ fn leave_outstanding(b: &mut Built, keep: &mut Keep) -> Result<u64, Error> {
         }
         Built::Sound(x) => {
             x.pcm_set_params(0, 128, 64, PcmFeatures::empty(), 2, PcmFormat::S16, PcmRate::Rate44100)?;
-            n += 1;
+            // two non-blocking PCM transfers stay posted on the tx queue (the device sits on them); an early
+            // poll must report "not ready" and leave the posted frame and status buffers alone
+            let t1 = x.pcm_xfer_nb(0, &[0x5a; 64])?;
+            let _t2 = x.pcm_xfer_nb(0, &[0xa5; 64])?;
+            if x.pcm_xfer_ok(t1).is_ok() {
+                return Err(Error::InvalidParam);
+            }
+            n += 3;
         }
         Built::Gpu(x) => {
             x.setup_framebuffer()?;
@@ -239,6 +246,7 @@ pub fn one_case(d: Drv, kind: TKind, fail_at: Option<u64>, sc: Scenario, variant
                 dev.borrow_mut().manual = match d {
                     Drv::Blk => vec![0],
                     Drv::NetRaw => vec![0, 1],
+                    Drv::Sound => vec![1, 2],
                     _ => d.stocked_queues().to_vec(),
                 };
                 leave_outstanding(b, &mut keep).map(|_| ()).map_err(|e| ("leave_outstanding".to_string(), e))
@@ -310,9 +318,12 @@ pub fn one_case(d: Drv, kind: TKind, fail_at: Option<u64>, sc: Scenario, variant
 /// Work list: (driver, kind, scenario, fail_at, variant).
 fn work(args: &Args) -> Vec<(usize, usize, Scenario, Option<u64>, u64)> {
     let mut w = vec![];
-    let nvar = if args.thorough() { 4 } else { 2 };
+    let nvar = if args.is_miri() { 1 } else if args.thorough() { 4 } else { 2 };
     for (di, _d) in drivers::ALL.iter().enumerate() {
-        for (ki, _k) in KINDS.iter().enumerate() {
+        for (ki, k) in KINDS.iter().enumerate() {
+            if args.is_miri() && !k.is_model() {
+                continue;
+            }
             for var in 0..nvar {
                 let variant = if nvar == 2 { var * 3 } else { var };
                 // fail_at = None first (dry run); the k list is expanded by the runner once the count is known
@@ -321,7 +332,10 @@ fn work(args: &Args) -> Vec<(usize, usize, Scenario, Option<u64>, u64)> {
             }
         }
     }
-    for (ki, _) in KINDS.iter().enumerate() {
+    for (ki, k) in KINDS.iter().enumerate() {
+        if args.is_miri() && !k.is_model() {
+            continue;
+        }
         for v in 0..3 {
             w.push((drivers::ALL.iter().position(|d| *d == Drv::P9).unwrap(), ki, Scenario::LateError, None, v));
         }
@@ -331,10 +345,7 @@ fn work(args: &Args) -> Vec<(usize, usize, Scenario, Option<u64>, u64)> {
 }
 
 pub fn run(args: &Args, sh: &mut Shard) {
-    if args.is_miri() {
-        sh.inconclusive.push("driver-level checks use fabricated MMIO addresses for the real transports; C09 is not run under Miri".into());
-        return;
-    }
+    crate::xport_any::set_model_only(args.is_miri());
     if let Some(r) = &args.replay {
         let g = |k: &str| r.get(k).and_then(|x| x.as_u64()).unwrap_or(0);
         let sc = match g("scenario") {
